@@ -218,6 +218,23 @@ for how in ("inner", "left", "right", "outer"):
     fam2(f"merge_col_{how}", (lambda how: lambda x, y: x.merge(y, on="a", how=how))(how))
     fam2(f"merge_idxcol_{how}", (lambda how: lambda x, y: x.merge(y.set_index("a") if isinstance(y, pd.DataFrame) else y.set_index("a"), left_on="a", right_index=True, how=how, suffixes=("_l", "_r")))(how))
     fam2(f"merge_idxidx_{how}", (lambda how: lambda x, y: x[["u", "b"]].merge(y[["e"]], left_index=True, right_index=True, how=how))(how), labelled=True)
+def _idx_a(x):
+    """Column a becomes the (named) index without changing the partitioning."""
+    if isinstance(x, pd.DataFrame):
+        return x.set_index("a")
+    return x.map_partitions(_set_index_a).clear_divisions()
+
+
+def _set_index_a(df):
+    return df.set_index("a")
+
+
+# the key is addressed by NAME and is an index level on one input and a column on the other (and on both): both sides must be
+# hashed alike whatever holds the key
+for how in ("inner", "left", "right", "outer"):
+    fam2(f"merge_idxname_col_{how}", (lambda how: lambda x, y: _idx_a(x).merge(y, on="a", how=how))(how))
+    fam2(f"merge_col_idxname_{how}", (lambda how: lambda x, y: x.merge(_idx_a(y), on="a", how=how))(how))
+fam2("merge_idxname_idxname", lambda x, y: _idx_a(x)[["u"]].merge(_idx_a(y)[["e"]], on="a", how="inner"))
 fam2("merge_leftsemi", lambda x, y: x.merge(y[["a"]].drop_duplicates(), on="a", how="leftsemi"), pd_fn=lambda x, y: x[x["a"].isin(y["a"])])
 fam2("merge_two_keys", lambda x, y: x.merge(y.assign(d=y["a"] % 2), on=["a", "d"], how="inner"))
 fam2("merge_diff_names", lambda x, y: x.merge(y.rename(columns={"a": "k"}), left_on="a", right_on="k", how="left"))
